@@ -373,3 +373,91 @@ Proof.
       apply IH. rewrite forallb_app. rewrite Hacc, Hf. reflexivity. }
   apply G. reflexivity.
 Qed.
+
+(* ---------------------------------------------------------------- extensionality of run *)
+(* `run` reads the visible state pointwise only: configurations that agree field by field (and
+   on the saved slots, counter, oracle, fault, failure and desync flag) stay that way.  So a
+   call started from the state a failed atomic call left behaves, component by component, like
+   the same call started from the original state - no detour through the list form. *)
+Definition ceq (c c' : cfg) : Prop :=
+  (forall f, cur c f = cur c' f) /\ (forall k, saved c k = saved c' k) /\
+  next c = next c' /\ orc c = orc c' /\ flt c = flt c' /\ failed c = failed c' /\ desync c = desync c'.
+
+Ltac dd H := destruct H as (Hc & Hs & Hn & Ho & Hf & Hfa & Hd).
+
+Lemma ceq_refl : forall c, ceq c c.
+Proof. intro c. repeat split. Qed.
+
+Lemma upd_ext : forall v v' f z g, (forall h, v h = v' h) -> upd v f z g = upd v' f z g.
+Proof. intros. unfold upd. destruct (field_eqb g f); auto. Qed.
+
+Lemma ceq_write_fresh : forall c c' f, ceq c c' -> ceq (write_fresh c f) (write_fresh c' f).
+Proof.
+  intros c c' f H. dd H. unfold write_fresh. repeat split; cbn; try congruence.
+  intro g. rewrite Hn. apply upd_ext. exact Hc.
+Qed.
+
+Lemma iter_ext : forall (body : cfg -> cfg) n,
+  (forall c c', ceq c c' -> ceq (body c) (body c')) ->
+  forall fuel c c', ceq c c' -> ceq (iter fuel n body c) (iter fuel n body c').
+Proof.
+  intros body n Hb. induction fuel as [|fuel IH]; intros c c' H; [exact H|].
+  cbn [iter]. pose proof H as H0. dd H. rewrite <- Hfa, <- Ho.
+  destruct (failed c) eqn:Ef; [exact H0|].
+  destruct (orc c) as [|[m d] o] eqn:Eo; [exact H0|].
+  destruct (Nat.eqb m n).
+  - destruct d.
+    + apply IH. apply Hb. repeat split; cbn; auto; try congruence.
+    + repeat split; cbn; auto; try congruence.
+  - repeat split; cbn; auto; try congruence.
+Qed.
+
+Lemma run_ext : forall p c c', ceq c c' -> ceq (run p c) (run p c').
+Proof.
+  induction p; intros c c' H; pose proof H as H0; dd H.
+  all: cbn [run]; rewrite <- Hfa; destruct (failed c) eqn:Ef; [exact H0|].
+  - exact H0.
+  - apply IHp2. apply IHp1. exact H0.
+  - rewrite <- Hf. destruct (flt c) as [[s' n]|]; [|exact H0].
+    destruct (Nat.eqb s s'); [|exact H0]. destruct n; repeat split; cbn; auto; try congruence.
+  - repeat split; cbn; auto; try congruence.
+  - destruct priv; [exact H0|]. destruct v.
+    + repeat split; cbn; auto; try congruence. intro g. apply upd_ext. exact Hc.
+    + apply ceq_write_fresh. exact H0.
+  - repeat split; cbn; auto; try congruence. intro k0. unfold updk. rewrite Hc. destruct (Nat.eqb k0 k); auto.
+  - rewrite <- Hs. destruct (saved c k).
+    + repeat split; cbn; auto; try congruence. intro g. apply upd_ext. exact Hc.
+    + apply ceq_write_fresh. exact H0.
+  - assert (E1 : ceq (run p1 c) (run p1 c')) by (apply IHp1; exact H0).
+    assert (E2 : ceq (run p2 (set_failed (run p1 c) None)) (run p2 (set_failed (run p1 c') None))).
+    { apply IHp2. destruct E1 as (a1 & a2 & a3 & a4 & a5 & a6 & a7). repeat split; cbn; auto; try congruence. }
+    cbn zeta. destruct E2 as (b1 & b2 & b3 & b4 & b5 & b6 & b7). rewrite <- b6.
+    destruct (failed (run p2 (set_failed (run p1 c) None))) eqn:E2f.
+    + repeat split; auto; try congruence.
+    + destruct E1 as (a1 & a2 & a3 & a4 & a5 & a6 & a7). repeat split; cbn; auto; try congruence.
+  - rewrite <- Ho. destruct (orc c) as [|[m d] o] eqn:Eo.
+    + apply IHp2. exact H0.
+    + destruct (Nat.eqb m n).
+      * destruct d; [apply IHp1 | apply IHp2]; repeat split; cbn; auto; try congruence.
+      * apply IHp2. repeat split; cbn; auto; try congruence.
+  - rewrite <- Ho. apply iter_ext; [exact IHp | exact H0].
+Qed.
+
+Lemma zmax_ext : forall (v v' : vstate) l, (forall f, v f = v' f) ->
+  fold_right (fun f acc => Z.max (v f) acc) 0%Z l = fold_right (fun f acc => Z.max (v' f) acc) 0%Z l.
+Proof. intros v v' l H. induction l as [|a l IH]; cbn; [reflexivity|]. rewrite H, IH. reflexivity. Qed.
+
+Lemma run_op_ext : forall p o k v v', (forall f, v f = v' f) -> ceq (run_op p o k v) (run_op p o k v').
+Proof.
+  intros p o k v v' H. unfold run_op. apply run_ext.
+  assert (Z : zmax_fields v = zmax_fields v') by (apply zmax_ext; exact H).
+  unfold init. rewrite Z. repeat split; cbn; auto.
+Qed.
+
+Lemma later_call_same_cfg : forall p, atomicb p = true ->
+  forall o k v0, failed (run_op p o k v0) <> None ->
+  forall p2 o2 k2, ceq (run_op p2 o2 k2 (cur (run_op p o k v0))) (run_op p2 o2 k2 v0).
+Proof.
+  intros p Ha o k v0 Hf p2 o2 k2. apply run_op_ext. intro f.
+  apply atomicb_sound_pointwise; assumption.
+Qed.
